@@ -438,6 +438,10 @@ def run(ctx):
   for i in range(0, len(spaces), 3):
     tasks.append(('shard', {'tier': ctx.tier, 'spaces': spaces[i:i + 3], 'designers': light, 'batches': [1, 2, 5] if not q else [1, 3], 'patterns': FEEDBACK if not q else FEEDBACK[:4:1],
                             'rounds': 4 if q else 6, 'seed': ctx.seed + 1, 'deviations': 24 if q else 64, 'two_objectives': i % 2 == 0}))
+  # designers with a random warm-up phase (BOCS, HARMONICA: 10 trials): runs long enough to get past it, on the boolean
+  # spaces they document and on look-alikes (two-valued categoricals) that they must refuse or answer inside the space
+  tasks.append(('shard', {'tier': ctx.tier, 'spaces': [('bool',), ('bool', 'bool2'), ('c2',), ('c2', 'bool'), ('c2', 'c1')], 'designers': ['bocs', 'harmonica'], 'batches': [1],
+                          'patterns': ['values'], 'rounds': 13 if q else 20, 'seed': ctx.seed + 1, 'deviations': 0}))
   tasks.append(('shard_misc', {'spaces': spaces, 'seed': ctx.seed + 1}))
   svc_spaces = singles[:: (3 if q else 1)] + pairs[:: (8 if q else 2)] + bools
   for i in range(0, len(svc_spaces), 2):
